@@ -8,7 +8,7 @@ Not decided: regex semantics, integer parsing.
 import ast
 
 from ..model import dotted, unparse, norm, walk_no_nested, loop_exits, loop_of
-from ..rulelib import Ctx, nodes_calling, reaching_defs, value_assigned, short
+from ..rulelib import Ctx, nodes_calling, reaching_defs, value_assigned, short, resolve_copies
 
 DB = {'TimeSeriesDatabase'}
 UNITS = {'s': 1, 'm': 60, 'h': 3600, 'd': 86400, 'w': 604800, 'y': 31536000}
@@ -170,33 +170,76 @@ def run(check):
   ls = cx.fn('carbon.storage', 'loadStorageSchemas')
   gl = cx.cfg(ls)
   r_sk = check.rule('R-C19-skip', 2, 'sections lacking a pattern or retentions are skipped without affecting the others')
-  for h in [n for n in gl.nodes if n.kind == 'handler']:
-    ts = unparse(h.ast.type) if h.ast.type is not None else ''
-    if 'KeyError' in ts:
-      tail = h.ast.body[-1]
-      if isinstance(tail, ast.Continue):
-        r_sk.ok('missing retentions -> continue', ls.loc(h.ast))
-      else:
-        r_sk.violate('missing retentions', ls, h.ast, 'a section without `retentions` is not skipped with `continue` '
-                     '(handler ends in `%s`)' % short(tail))
-  pat_vars = {t.id for n in walk_no_nested(ls.node, include_self=False) if isinstance(n, ast.Assign)
-              for t in n.targets if isinstance(t, ast.Name) and isinstance(n.value, ast.Call) and isinstance(n.value.func, ast.Attribute)
-              and n.value.func.attr == 'get' and n.value.args and isinstance(n.value.args[0], ast.Constant) and
-              n.value.args[0].value == 'pattern'}
+  from ..paths import PathExec
   ls_rets = [n for n in walk_no_nested(ls.node, include_self=False) if isinstance(n, ast.Return) and isinstance(n.value, ast.Name)]
   ls_list = ls_rets[0].value.id if ls_rets else 'schemaList'
-  pat_tests = gl.test_edges(lambda pol, t, n: pol == 'F' and isinstance(t, ast.Name) and t.id in pat_vars)
-  for (a, lab, b) in pat_tests:
-    appends = nodes_calling(gl, lambda c: isinstance(c.func, ast.Attribute) and c.func.attr == 'append' and
-                            dotted(c.func.value) == ls_list and c.args and dotted(c.args[0]) != 'defaultSchema')
-    heads = [n for n in gl.nodes if n.kind == 'loop']
-    rr = gl.reach([b], removed_nodes=set(heads), normal_only=True)
-    if any(x in rr for x in appends):
-      r_sk.violate('missing pattern', ls, a.ast, 'a section without `pattern` can still be appended to the schema list')
-    elif gl.exit in rr or gl.raise_exit in gl.reach([b], removed_nodes=set(heads)) and False:
-      r_sk.violate('missing pattern', ls, a.ast, 'a section without `pattern` ends the loading of all sections')
-    else:
-      r_sk.ok('missing pattern -> skipped', ls.loc(a.ast))
+  appends = nodes_calling(gl, lambda c: isinstance(c.func, ast.Attribute) and c.func.attr == 'append' and
+                          dotted(c.func.value) == ls_list and c.args and dotted(c.args[0]) != 'defaultSchema')
+  heads = [n for n in gl.nodes if n.kind == 'loop' and isinstance(n.owner, ast.For) and isinstance(n.owner.iter, ast.Call) and
+           isinstance(n.owner.iter.func, ast.Attribute) and n.owner.iter.func.attr == 'sections']
+  if not heads or not appends:
+    r_sk.cannot_decide('loadStorageSchemas: section loop or schema append not recognised')
+  else:
+    head = heads[0]
+
+    def option_missing(pol, t, a, key):
+      """does this decision establish that the section has no (usable) option ``key``?"""
+      K = ('const', key)
+      if not isinstance(t, tuple):
+        return False
+      if pol == 'X':
+        # KeyError handler entered from a statement that subscripts [...][key]
+        h = a
+        return False
+      if t[0] in ('in', 'notin') and t[1] == K:
+        return (t[0] == 'notin') == (pol == 'T')
+      def is_get(x):
+        return isinstance(x, tuple) and ((x[0] == 'meth' and x[1] == 'get' and len(x) >= 4 and x[3] == K) or
+                                         (x[0] == 'call' and x[1].endswith('.get') and len(x) >= 3 and x[2] == K))
+      if t[0] == 'truth' and is_get(t[1]):
+        return pol == 'F'
+      if t[0] == 'cmp' and t[1] in ('Is', 'IsNot', 'Eq', 'NotEq') and is_get(t[2]) and t[3] == ('const', None):
+        return (t[1] in ('Is', 'Eq')) == (pol == 'T')
+      return False
+
+    def keyerror_on(hit, key):
+      for pol, t, a, n in hit.conds:
+        if pol == 'X' and n.kind == 'handler' and n.ast.type is not None and 'KeyError' in unparse(n.ast.type) and a is not None:
+          if any(isinstance(x, ast.Subscript) and isinstance(x.slice, ast.Constant) and x.slice.value == key for x in ast.walk(a)):
+            return True
+      return False
+
+    px = PathExec(cx, ls, unroll=0)
+    verdicts = {'retentions': set(), 'pattern': set()}
+    for hit in px.run(set(appends) | {head, gl.exit, gl.raise_exit}):
+      if hit.node is head and head not in hit.trail[:-1]:
+        continue               # first arrival at the loop
+      for key in ('retentions', 'pattern'):
+        missing = keyerror_on(hit, key) or any(pol in ('T', 'F') and option_missing(pol, t, a, key) for pol, t, a, n in hit.conds)
+        if not missing:
+          continue
+        if hit.node in appends:
+          verdicts[key].add(('appended', hit.node))
+        elif hit.node is head:
+          verdicts[key].add(('skipped', hit.node))
+        elif hit.node is gl.exit or any(n.kind == 'stmt' and isinstance(n.ast, ast.Raise) for n in hit.trail):
+          last = [n for n in hit.trail if n.ast is not None]
+          verdicts[key].add(('ends', last[-1] if last else hit.node))
+    for key in ('retentions', 'pattern'):
+      v = verdicts[key]
+      bad = [x for x in v if x[0] != 'skipped']
+      if bad:
+        kind, n = sorted(bad, key=lambda x: x[0])[0]
+        r_sk.violate('missing %s' % key, ls, n.ast, 'a section without `%s` %s' % (
+          key, 'can still be appended to the schema list' if kind == 'appended' else
+          'is not skipped with `continue`: it ends the loading of all sections'))
+      elif v:
+        r_sk.ok('missing %s -> the section is skipped, the loop goes on' % key, ls.loc(head.owner))
+      else:
+        r_sk.violate('missing %s' % key, ls, None, 'no path of loadStorageSchemas recognises a section without `%s`' % key,
+                     construct='missing %s' % key)
+    if px.truncated:
+      r_sk.cannot_decide('too many paths through loadStorageSchemas')
 
   # ------------------------------------------------------------------ OrderedConfigParser
   r_ocp = check.rule('R-C19-section-order', 3, 'sections() is the per-read list of section headers, top to bottom')
@@ -389,7 +432,10 @@ def run(check):
   pr = cx.fn('carbon.util', 'parseRetentionDef')
   gp = cx.cfg(pr)
 
-  def scaled(e):
+  def scaled(e, _depth=0):
+    if isinstance(e, ast.Name) and _depth < 4:
+      srcs = resolve_copies(pr, e)
+      return bool(srcs) and srcs != [e] and all(isinstance(v, ast.AST) and scaled(v, _depth + 1) for v in srcs)
     return isinstance(e, ast.AST) and any(isinstance(x, ast.Subscript) and dotted(x.value) == 'UnitMultipliers'
                                           for x in ast.walk(e)) and any(isinstance(x, ast.BinOp) and isinstance(x.op, ast.Mult)
                                                                         for x in ast.walk(e))
@@ -407,7 +453,7 @@ def run(check):
     if isinstance(div, ast.Name):
       rds = reaching_defs(gp, div.id, n)
       vals = [value_assigned(d, div.id) if d is not gp.entry else None for d in rds]
-      if vals and all(scaled(v) for v in vals):
+      if vals and all(isinstance(v, ast.AST) and scaled(v) for v in vals):
         r_un.ok('duration divided by the precision in seconds', pr.loc(x), '%s <- %s' % (div.id, [unparse(v) for v in vals]))
       else:
         r_un.violate('duration / precision', pr, x, 'the duration is divided by `%s`, which at this point is not (on every '
